@@ -98,7 +98,7 @@ func tagsOf(s *scenario) []string {
 	} else {
 		tags = append(tags, "via-direct")
 	}
-	return tags
+	return append(tags, groupTags(s)...)
 }
 
 func valid(s *scenario) bool {
@@ -126,6 +126,17 @@ func valid(s *scenario) bool {
 		switch s.kind {
 		case "FAILED", "LOST", "KILLED", "TERROR", "FINISHED":
 		default:
+			return false
+		}
+		if len(s.groups) > 0 {
+			return false // 90 s worlds: not combined with bystanders
+		}
+	}
+	if len(s.groups) > 3 {
+		return false
+	}
+	for _, g := range s.groups {
+		if len(g.tasks) < 1 || len(g.tasks) > 3 {
 			return false
 		}
 	}
@@ -182,6 +193,10 @@ func generate(tier string, r *rng.R) []fw.Case {
 			add(mk(live, one, k, "drop"))
 		}
 	}
+	// stratum: the roster is one table — tasks of nobody (kept by an environment destroyed with keepTasks) and tasks of
+	// a second live environment on the victim's agent, older or younger than the victim, for every failure kind
+	// (appended after the older strata: those are unchanged for a given seed)
+	bystanderCases(r, ls, add)
 	if tier == "thorough" {
 		// a handful of worlds that sit in the core's 90 s response timeout
 		for _, sc := range []*scenario{
@@ -199,6 +214,9 @@ func generate(tier string, r *rng.R) []fw.Case {
 		for n := len(out) + 300; len(out) < n; {
 			add(mk(rng.Pick(r, []string{"CONFIGURED", "RUNNING"}), rng.Pick(r, ls), rng.Pick(r, reconKinds), rng.Pick(r, dropInstants)))
 		}
+		for n := len(out) + 400; len(out) < n; {
+			add(randomBystanderCase(r, ls))
+		}
 	}
 	return out
 }
@@ -212,6 +230,9 @@ func search(r *rng.R) []fw.Case {
 		s := mk(rng.Pick(r, []string{"CONFIGURED", "RUNNING"}), rng.Pick(r, ls), rng.Pick(r, kinds), rng.Pick(r, []string{"idle", "race", "racelate", "burst"}))
 		if r.P(1, 4) {
 			s.kind, s.instant = rng.Pick(r, reconKinds), rng.Pick(r, dropInstants)
+		}
+		if r.P(1, 4) {
+			s = randomBystanderCase(r, ls)
 		}
 		if !valid(s) || seen[s.String()] {
 			continue
@@ -260,6 +281,9 @@ func shrinkCands(input string) []string {
 		c.kind = "RLOST"
 		push(&c)
 	}
+	for _, c := range shrinkGroups(s) {
+		push(c)
+	}
 	return out
 }
 
@@ -282,6 +306,7 @@ var assumptions = []string{
 	"simulated executors: one executor per host and environment (the core re-uses the executor of an offer), tasks answer every command with success unless scripted; a task that announced TASK_INTERNAL_ERROR still answers STOP with success",
 	"the core is not PARTITION_AWARE: TASK_DROPPED/UNREACHABLE/GONE are never sent by Mesos and are not generated",
 	"wall-clock order assumed by the model's schedule: replies of the in-flight transition, its end, a STOP_ACTIVITY queued by handleDeviceEvent, then the watcher's 500 ms timer",
+	"bystander groups (sixth input field): one executor per agent (the core re-uses the executor id an offer lists; checked per world for the executor kinds, a world where it does not hold is inconclusive); roster order = creation order of the environments (checked per world against GetTasks); a kept task's own state is read off the core's task events (ERROR / DONE if any Ev_TaskEvent about it since the injection says so, else STANDBY), its status is not observed (HandleAgentFailed / HandleExecutorFailed publish no event after setting it); a bystander environment without victims is looked at once the main environment has settled and not earlier than 1.5 s after the injection; kept tasks exist only AFTER the last environment creation of a world (CreateEnvironment's pre-deployment Cleanup() kills every unlocked task)",
 }
 
 func teardown() {
@@ -311,7 +336,10 @@ func init() {
 			"idle or while START_ACTIVITY/STOP_ACTIVITY is in flight (parked at another task's reply released at once / 900 ms later, all replies and the failure back to back, or parked at the victim's own reply), " +
 			"or (kinds R…, instants drop/dropabrupt) the victim — or every task of its agent — dies while the core is cut off from the master (subscription ended cleanly or reset) and its terminal state " +
 			"TASK_FAILED/LOST/KILLED/ERROR/FINISHED reaches the core only as the master's answer (REASON_RECONCILIATION) to the implicit RECONCILE of the re-subscription; " +
-			"observed after the settle window: environment state, state/status of the root and of every task role, run events, end-of-run stamps, STOP commands, result of the racing transition; " +
+			"optionally (sixth field) 1..3 bystander groups of 1..3 tasks on the same agents: the tasks of another environment created before / after the main one (= before / after its tasks in the roster) " +
+			"that is still alive (CONFIGURED) or was destroyed with keepTasks once every environment existed (tasks of nobody: in the roster, running, no parent role) — every walk kind (executor / agent FAILURE, agent lost while cut off) x live state x {before, after} x {nobody's, second environment's} with a critical victim and a bystander on its agent, every other kind with one random group, 14 multi-group worlds; " +
+			"observed after the settle window: environment state, state/status of the root and of every task role, run events, end-of-run stamps, STOP commands, result of the racing transition, " +
+			"and per bystander group the second environment's state, root and roles resp. the kept tasks' own state as published in the core's task events; " +
 			"quick = every (live state, kind, instant) with a critical and a non-critical victim on a random layout; non-trivial = >= 2 tasks or a critical victim; distinct by input text",
 		Shrink:      shrinkCands,
 		Search:      search,
